@@ -52,6 +52,7 @@ def _install(ex):
     ex.stub(bip32.bytes_from_prv_key_int, bytes_from_prv_key_int)
     ex.stub(bip32._pub_key_tweak_chain, lambda key: Chain(key))
     ex.stub(bip32._assert_valid_key, lambda version, key: None)
+    ex.path_state["is_inf"] = is_inf
     return pub, add
 
 
@@ -194,3 +195,85 @@ def bip85_mnemonic_path(ex, lang, words):
     got = list(indexes_from_der_path(seen["path"]))
     n = _BIP85_ENT[words]
     return {"path_is_the_bips": got == want, "entropy_truncated_to_the_words_table": sand(len(seen["entropy"]) == n, seen["entropy"] == ent[:n]), "language_handed_on": seen["lang"] == lang}
+
+
+# ------------------------------------------------------------------ the algebraic laws: neutering commutes with unhardened derivation; the known parent-key recovery
+_HOMO = ["the group homomorphism enters as two assumed instances, on exactly the terms the two derivations build: serP((k + t) mod n) = tweak_add(serP(k), t) and "
+         "'the sum is infinity' <=> (k + t) mod n = 0 (true statements about secp256k1; a library that built any other term is not helped by them)"]
+
+
+@ob("C07", "neutering_commutes_with_unhardened_derivation", quick=[dict(n=1), dict(n=2)], thorough=[dict(n=1), dict(n=2), dict(n=3)],
+    bound="extended private key (k in 1..n-1, chain code, depth, parent fingerprint and index symbolic), paths of n symbolic unhardened indexes: N(CKDpriv(xprv, i..)) and CKDpub(N(xprv), i..) agree "
+          "in key, chain code, depth, index, parent fingerprint and version, and one refuses exactly when the other does",
+    stubs=_STUBS + _HOMO, functions=["btclib.bip32.bip32._derive", "btclib.bip32.bip32._xpub_from_xprv", "btclib.bip32.bip32.__prv_key_derivation", "btclib.bip32.bip32.__pub_key_derivation"],
+    timeout=900, min_ok=1, weight=3)
+def neuter_commutes(ex, n):
+    pub, add = _install(ex)
+    is_inf = ex.path_state["is_inf"]
+    k = ex.int("k", 1, N - 1)
+    cc = ex.bytes("cc", 32)
+    depth = ex.int("depth", 0, 255 - n)
+    fp = ex.bytes("fp", 4)
+    pidx = ex.int("pidx", 0, 0xFFFFFFFF)
+    idx = [ex.int(f"i{j}", 0, H - 1) for j in range(n)]
+    xprv = BIP32KeyData(XPRV, depth, fp, pidx, cc, b"\x00" + k.to_bytes(32, "big"), check_validity=False)
+    # the homomorphism, instantiated along the path (reference walk with the BIP's equations)
+    kj, ccj = k, cc
+    for i in idx:
+        P = pub(kj.to_bytes(32, "big"))
+        I = _hmac512(ccj, P + i.to_bytes(4, "big"))
+        IL = int.from_bytes(I[:32], "big")
+        child = (IL + kj) % N
+        if not ex.concrete:
+            ex.assume(iff(is_inf(P + I[:32])[0] == 1, child == 0))
+            ex.assume(implies(child != 0, pub(child.to_bytes(32, "big")) == add(P + I[:32])))
+        kj, ccj = child, I[32:]
+    a = b = None
+    try:
+        a = bip32._xpub_from_xprv(bip32._derive(xprv, idx, None))
+    except BTClibValueError:
+        pass
+    try:
+        b = bip32._derive(bip32._xpub_from_xprv(xprv), idx, None)
+    except BTClibValueError:
+        pass
+    if a is None or b is None:
+        return ex.refuse("BTClibValueError", both_refuse=(a is None and b is None))
+    return {"same_key": a.key == b.key, "same_chain_code": a.chain_code == b.chain_code, "same_depth": a.depth == b.depth, "same_index": a.index == b.index,
+            "same_parent_fingerprint": a.parent_fingerprint == b.parent_fingerprint, "same_version": sand(a.version == b.version, a.version == XPUB),
+            "public_key_prefix": sor(a.key[0] == 2, a.key[0] == 3)}
+
+
+@ob("C07", "parent_key_recovered_from_xpub_and_child_is_the_true_parent", quick=[dict()], thorough=[dict()],
+    bound="parent private key k in 1..n-1, chain code, depth 1..254, fingerprint, index and the child index over all 32 bits symbolic: for the child the library derives, crack_prv_key_var(N(parent), child) "
+          "serializes exactly the parent's extended private key; a hardened child is refused",
+    stubs=_STUBS + ["base58.encode records the 78-octet payload it is handed (the codec is C06's subject)"],
+    functions=["btclib.bip32.bip32.crack_prv_key_var", "btclib.bip32.bip32._derive", "btclib.bip32.bip32._xpub_from_xprv"], timeout=600, min_ok=1)
+def crack_parent(ex):
+    from btclib import base58 as _b58
+    pub, _ = _install(ex)
+    seen = []
+
+    def fake_encode(v, in_size=None):
+        seen.append(v)
+        return b"@xkey@"
+    ex.stub(_b58.encode, fake_encode)
+    k = ex.int("k", 1, N - 1)
+    cc = ex.bytes("cc", 32)
+    depth = ex.int("depth", 1, 254)       # a root key (depth 0) has no index or fingerprint of its own: BIP32KeyData's validity rule, which crack_prv_key_var enforces
+    fp = ex.bytes("fp", 4)
+    pidx = ex.int("pidx", 0, 0xFFFFFFFF)
+    i = ex.int("i", 0, 0xFFFFFFFF)
+    parent = BIP32KeyData(XPRV, depth, fp, pidx, cc, b"\x00" + k.to_bytes(32, "big"), check_validity=False)
+    try:
+        child = bip32._derive(parent, [i], None)
+    except BTClibValueError:
+        return ex.refuse("invalid_child")
+    xpub = bip32._xpub_from_xprv(parent)
+    try:
+        out = bip32.crack_prv_key_var(xpub, child)
+    except BTClibValueError as e:
+        return ex.refuse("BTClibValueError: " + str(e)[:30], refused_only_a_hardened_child=i >= H)
+    want = parent.serialize(check_validity=False)
+    return {"answered_only_for_an_unhardened_child": i < H, "one_key_written": len(seen) == 1,
+            "recovered_parent_is_the_true_parent": sand(len(seen[0]) == len(want), seen[0] == want)}
